@@ -402,6 +402,70 @@ async fn c11_scenario<TC: Configuration>(cx: &mut Cx, r: &mut Rng, sc: &Scenario
             }
         }
     }
+    // a crash in the middle of the commit, then the same publish again on a re-created directory
+    let deads: Vec<Vec<DbRecord>> = vec![
+        body[..body.len() / 2].to_vec(),
+        body.to_vec(),
+        body.iter().enumerate().filter(|(i, _)| i % 3 != 1).map(|(_, x)| x.clone()).collect(),
+    ];
+    for (di, dead) in deads.into_iter().enumerate() {
+        if lite && di == 2 {
+            continue;
+        }
+        let what = format!("[cfg {} crash after {} of {} records of the commit of epoch {} (variant {})]", cfg, dead.len(), body.len(), t.epoch + 1, di);
+        c11_retry_after_crash::<TC>(cx, sc, &before, dead, &t, &t_after, &what).await;
+    }
+}
+
+/// C11, after a crash: the commit of the target epoch died with the records `dead` written (no epoch record).  A
+/// directory re-created over that storage publishes the same batch again.  The retry must take the epoch the dead
+/// attempt was meant to take and end in the fault-free state; while ITS records reach storage one by one, a reader
+/// must still be served the previous epoch intact; once its epoch record is there, the new epoch.
+async fn c11_retry_after_crash<TC: Configuration>(cx: &mut Cx, sc: &Scenario, before: &[DbRecord], dead: Vec<DbRecord>, t: &Truth, t_after: &Truth, what: &str) {
+    let ndb = AsyncInMemoryDatabase::new();
+    ndb.batch_set(before.to_vec(), DbSetState::General).await.unwrap();
+    ndb.batch_set(dead.clone(), DbSetState::General).await.unwrap();
+    let crashed: Vec<DbRecord> = ndb.batch_get_all_direct().await.unwrap();
+    let fdb = FaultDb::over(ndb.clone());
+    fdb.record_commits.store(true, Ordering::SeqCst);
+    let dir = Directory::<TC, _, _>::new(StorageManager::new_no_cache(fdb.clone()), HardCodedAkdVRF {}, AzksParallelismConfig::disabled()).await.unwrap();
+    let res = dir.publish(to_updates(&sc.target)).await;
+    cx.stat("c11_retries_after_crash");
+    let eh = match res {
+        Ok(eh) => eh,
+        Err(_) => {
+            // not a violation of C11 (which speaks about readers): with only part of the node records of the dead attempt in
+            // storage the re-created directory may be unable to publish at all (a written parent names a child that was
+            // not written).  Counted, and reported in DESIGN.md as an observation outside the listed properties.
+            cx.stat("c11_retries_refused_on_partially_written_storage");
+            return;
+        }
+    };
+    if (eh.0, eh.1) != (t_after.epoch, t_after.hashes[t_after.epoch as usize]) {
+        cx.fail(format!("C11 {}: the retry returned ({}, {}) but the publish of this batch on the state before the crash gives ({}, {})", what, eh.0, hx(&eh.1), t_after.epoch, hx(&t_after.hashes[t_after.epoch as usize])));
+        return;
+    }
+    serves::<TC, _>(cx, &dir, t_after, &sc.labels, &format!("{} after the retry", what), "C11").await;
+    if t_after.epoch == t.epoch {
+        return;
+    }
+    let batch = match fdb.commits.lock().unwrap().last().cloned() {
+        Some(b) => b,
+        None => return,
+    };
+    let n = batch.len();
+    // readers while the retry's records are being written (every prefix, without and - at the end - with the epoch record)
+    let step = if n > 40 { n / 20 } else { 1 };
+    let mut k = 0;
+    while k < n {
+        let mdb = AsyncInMemoryDatabase::new();
+        mdb.batch_set(crashed.clone(), DbSetState::General).await.unwrap();
+        mdb.batch_set(batch[..k].to_vec(), DbSetState::General).await.unwrap();
+        let d2 = Directory::<TC, _, _>::new(StorageManager::new_no_cache(mdb.clone()), HardCodedAkdVRF {}, AzksParallelismConfig::disabled()).await.unwrap();
+        serves::<TC, _>(cx, &d2, t, &sc.labels, &format!("{} while the retry is being written: {} of {} records", what, k, n - 1), "C11").await;
+        cx.stat("c11_partial_states_of_retries");
+        k += step;
+    }
 }
 
 pub fn run(seed: u64, tier: u32, which: &str) -> Cx {
